@@ -94,7 +94,7 @@ def prelude(t, nodes, rng):
     is re-read from the tree afterwards."""
     from nutree import TreeError
 
-    for _ in range(3):
+    for _ in range(4):
         live = list(t)
         if not live:
             break
@@ -112,9 +112,16 @@ def prelude(t, nodes, rng):
             elif r < 0.85:
                 tgt = rng.choice(live + [t])
                 n.move_to(tgt)
-            else:
+            elif r < 0.93:
                 n.add(rng.choice(STR_ALPH + [1, 2]))
-        except (TreeError, ValueError, NotImplementedError, AssertionError):
+            else:
+                # refused calls must not leave anything behind that a lookup could find
+                other = rng.choice(live)
+                rng.choice([lambda: n.add("ghost-a", before=other if other.parent is not n else n),
+                            lambda: n.add(other, deep=True, data_id="ghost-id"),
+                            lambda: t.add("ghost-b", node_id=n.node_id),
+                            lambda: n.add(n.children[0].data if n.children else "ghost-c", before="garbage")])()
+        except (TreeError, ValueError, NotImplementedError, AssertionError, TypeError):
             pass
     out = []
 
@@ -219,7 +226,7 @@ def run_case(case, res):
             keys = []
             for x in order:
                 keys += [x.node_id, x.data_id, x.data]
-            keys += ["zz", 987654, "a", "b", 1, 2, 3, 4, 5]
+            keys += ["zz", 987654, "a", "b", 1, 2, 3, 4, 5, "ghost-a", "ghost-b", "ghost-c", "ghost-id"]
             seen = set()
             for key in keys:
                 if (type(key), key) in seen or isinstance(key, bool):
@@ -317,7 +324,7 @@ def shards(tier, seed):
     bound = 6 if tier == "quick" else 7
     out = [{"name": f"enum{i}", "kind": "enum", "i": i, "bound": bound, "budget_s": 150 if tier == "quick" else 1500}
            for i in range(NSHARDS)]
-    out += [{"name": f"rand{i}", "kind": "rand", "i": i, "count": 20 if tier == "quick" else 150,
+    out += [{"name": f"rand{i}", "kind": "rand", "i": i, "count": 20 if tier == "quick" else 700,
              "budget_s": 60 if tier == "quick" else 600} for i in range(NSHARDS)]
     return out
 
